@@ -27,6 +27,8 @@ type Fed struct {
 	// PlanDelayNanos, when set, makes every Plan call of this federation's planner take at least that long
 	PlanDelayNanos int64
 	Store     Store
+	// Ctx, when set, is the context requests of Run are made under (instead of context.Background())
+	Ctx context.Context
 }
 
 // Quiet is a Logger that drops everything.
@@ -132,7 +134,11 @@ func (f *Fed) Run(query, op string, vars map[string]interface{}, timeout time.Du
 				ch <- Outcome{Panicked: r}
 			}
 		}()
-		rc := &gateway.RequestContext{Context: context.Background(), Query: query, OperationName: op, Variables: vars}
+		rctx := f.Ctx
+		if rctx == nil {
+			rctx = context.Background()
+		}
+		rc := &gateway.RequestContext{Context: rctx, Query: query, OperationName: op, Variables: vars}
 		plans, err := f.GW.GetPlans(rc)
 		close(planned)
 		if err != nil {
